@@ -113,6 +113,7 @@ Canon(f) ==
 Init ==
   /\ \E a \in Names, b \in Names : \E va \in Corner[a], vb \in Corner[b] :
         fields = Canon([[Base EXCEPT ![a] = va] EXCEPT ![b] = vb])
+  /\ fields.edoy = 366 => fields.eyy % 4 = 0          \* day 366 exists in leap years only (1957-2056: every fourth year)
   /\ l1 = Line1(fields)
   /\ l2 = Line2(fields)
 Next == UNCHANGED vars
